@@ -243,6 +243,20 @@ def run_property(pid: str, tier: str, seed: int) -> int:
             for o in r["obligations"]:
                 if not o["must_fail"] and o["status"] != "unsat" and (pid in o["tags"] or o["kind"] in ("safe", "frame", "call-pre")):
                     undecided.append({"obligation": o["name"], "reason": "function not executed to the end: " + (o["reason"] or o["status"])})
+            # ... except a real input: the text changed, and a native sample of the contract makes a clause fail on the real function
+            # although every obligation of that clause was discharged on the baseline tree
+            base = BASELINE.get(r["target"], {})
+            for lab, hit in (r.get("native_fail") or {}).items():
+                if r.get("src_changed") and base.get("labels", {}).get(f"post|{lab}") == "unsat":
+                    fname = ("sample_" + r["target"].replace("/", "_").replace(":", "_") + "." + lab)[-150:]
+                    path = os.path.join(REPLAYS, pid, fname + ".json")
+                    json.dump({"property": pid, "function": r["target"], "clause": lab, "verdict": "clause fails on a real input",
+                               "replay": {"status": "violation", **hit},
+                               "note": "the changed text of the function is outside the verifier's subset (" + r["reason"][:160] + "); the clause was "
+                                       "discharged on the baseline tree and now fails natively on a sample input of the contract, run through the real function",
+                               "baseline": {"tree": base.get("tree"), "function_text_hash": base.get("sha")}, "now": {"function_text_hash": r.get("src_sha")}},
+                              open(path, "w"), indent=1, default=str)
+                    violations.append((path, ""))
             continue
         for o in r["obligations"]:
             if pid == "C02" and "C03" in o["tags"] and "C02" not in o["tags"]:
